@@ -171,4 +171,10 @@ def values_equal(a, b):
             return isinstance(a, pd.DataFrame) and isinstance(b, pd.DataFrame) and a.equals(b)
     except ImportError:
         pass
-    return type(a) is type(b) and a == b
+    if type(a) is not type(b):
+        return False
+    if isinstance(a, (list, tuple)):
+        return len(a) == len(b) and all(values_equal(x, y) for x, y in zip(a, b))
+    if isinstance(a, dict):
+        return list(a.keys()) == list(b.keys()) and all(values_equal(a[k], b[k]) for k in a)
+    return a == b
